@@ -327,6 +327,55 @@ func c14IterTranscript(w *World, keys []string, rev bool, prefix string, calls [
 	return b.String(), pruned
 }
 
+// shard counts outside the sensible range: Open refuses them, or the database behaves like any other - it never
+// accepts the configuration and then panics on the first access
+func runOddShard(cfg Cfg, ops []Op, res *TaskResult) string {
+	beginExecution()
+	w := NewWorld(cfg, keysAB)
+	defer w.Destroy()
+	res.Execs++
+	if err := w.Open(); err != nil {
+		if errClass(err) == "panic" {
+			return "Open panicked: " + panicDetail(err)
+		}
+		res.count("open_refused", 1)
+		res.States = append(res.States, hash64("refused", fmt.Sprint(cfg.Shards)))
+		return ""
+	}
+	for i, op := range ops {
+		ar := w.Apply(op)
+		res.Transitions++
+		if ar.Err != nil || ar.Clause != "" || w.Dead {
+			return fmt.Sprintf("Open accepted ShardNum %d, then step %d %s: %s %s %s", cfg.Shards, i, op, errClass(ar.Err), panicDetail(ar.Err), ar.Detail)
+		}
+		if c, d := w.CheckReads(); c != "" {
+			return fmt.Sprintf("Open accepted ShardNum %d, after step %d %s: %s", cfg.Shards, i, op, d)
+		}
+	}
+	res.Nontrivial++
+	res.States = append(res.States, w.StateHash())
+	return ""
+}
+
+func c14OddShardTasks() []Task {
+	var tasks []Task
+	for _, sh := range []int{0, -1, -16, 5, 1000, 4096, 1 << 20} {
+		for _, ix := range []int8{1, 2, 3} {
+			sh, ix := sh, ix
+			tasks = append(tasks, Task{Level: "odd-shard-counts", Name: fmt.Sprintf("odd shard count %d index %d", sh, ix), Fn: func(res *TaskResult) {
+				cfg := defaultCfg
+				cfg.Shards, cfg.Index = sh, ix
+				ops := []Op{{K: "put", Key: "a", VC: "S"}, {K: "put", Key: "b", VC: "L"}, {K: "del", Key: "a"}, {K: "batch", Sub: []Op{{K: "put", Key: "a", VC: "S"}}}, {K: "merge"}, {K: "restart"}, {K: "put", Key: "b", VC: "S"}}
+				if d := runOddShard(cfg, ops, res); d != "" {
+					res.Violations = append(res.Violations, Violation{Prop: "C14", Clause: "odd-shard-count", Sig: fmt.Sprintf("odd-shard-count:%d", sh), Detail: fmt.Sprintf("cfg=%s trace=[%s]\n%s", cfg, traceString(ops), d),
+						Replay: mustJSON(seqReplay{Engine: "odd-shard", Prop: "C14", Cfg: cfg, Keys: keysAB, Ops: ops, Trace: traceString(ops)})})
+				}
+			}})
+		}
+	}
+	return tasks
+}
+
 func c14IterTasks(tier string) []Task {
 	l, bnd := 3, 2
 	if tier == "thorough" {
@@ -423,7 +472,7 @@ func init() {
 			mmlk.IO = 1
 			lk = append(lk, mmlk)
 			tasks = append(tasks, seqTasks("C14", []seqLevel{{Name: "long-keys-lockstep-d4", Cfgs: []Cfg{lk[0]}, Keys: c18LongKeys, Alpha: longKeyMergeAlphabet, Depth: 4, Dev: 2, Split: 2, Run: makeRunC14(lk)}})...)
-			return append(tasks, c14IterTasks(tier)...)
+			return append(append(tasks, c14IterTasks(tier)...), c14OddShardTasks()...)
 		},
 		Bounds: func(tier string) map[string]any {
 			d, b := 4, 2
@@ -432,6 +481,19 @@ func init() {
 			}
 			return map[string]any{"depth": d, "deviation_bound": b, "configs_in_lockstep": len(c14Cfgs(tier)), "sequences": countSeq(c14Alphabet(defaultCfg), d, b)}
 		},
-		Replay: func(raw json.RawMessage) { seqReplayMain(raw, makeRunC14(c14Cfgs("thorough"))) },
+		Replay: func(raw json.RawMessage) {
+			var r seqReplay
+			json.Unmarshal(raw, &r)
+			if r.Engine == "odd-shard" {
+				var res TaskResult
+				if d := runOddShard(r.Cfg, r.Ops, &res); d != "" {
+					fmt.Printf("VIOLATION clause=odd-shard-count\n%s\n", d)
+					os.Exit(1)
+				}
+				fmt.Println("no violation on this tree")
+				return
+			}
+			seqReplayMain(raw, makeRunC14(c14Cfgs("thorough")))
+		},
 	})
 }
